@@ -51,7 +51,7 @@ type setModel struct {
 	set        *jet.Set
 	dev        bool
 	simCache   *SimCache
-	lossy      bool // the user-supplied cache forgets entries: repeat hits are not demanded
+	lossy      bool                     // the user-supplied cache forgets entries: repeat hits are not demanded
 	execClean  map[*jet.Template]bool   // templates whose last Execute succeeded with every run-time lookup found
 	succ       map[string]*jet.Template // explicit successful GetTemplate by request name
 	failed     map[string]bool          // last explicit attempt failed
@@ -62,19 +62,19 @@ type setModel struct {
 
 type c16 struct {
 	editedWhileOpen map[string]bool // files stored again while a reader on them was open (the load may deliver the previous version)
-	env     *sim.Env
-	t       *sim.Tape
-	exts    []string
-	mem     *jet.InMemLoader
-	loader  *SimLoader
-	files   map[string]*fileModel // canonical path (with extension) -> model; nil entry = deleted
-	vers    map[string]int        // version counter per path (never reused)
-	past    map[string]*fileModel // path#version -> what that version looked like
-	bases   []string
-	sets    []*setModel
-	ctrace  []Call
-	hist    []string
-	nChecks int
+	env             *sim.Env
+	t               *sim.Tape
+	exts            []string
+	mem             *jet.InMemLoader
+	loader          *SimLoader
+	files           map[string]*fileModel // canonical path (with extension) -> model; nil entry = deleted
+	vers            map[string]int        // version counter per path (never reused)
+	past            map[string]*fileModel // path#version -> what that version looked like
+	bases           []string
+	sets            []*setModel
+	ctrace          []Call
+	hist            []string
+	nChecks         int
 }
 
 var extLists = [][]string{
